@@ -465,6 +465,12 @@ func (b *builder) mediaType(mt string) M {
 			props["f5"] = M{"description": "any"} // no type: whatever the part carries
 		}
 		s = M{"type": "object", "properties": props}
+		if b.chance(3, "formcomposed") {
+			// a member declared through a composition, itself an object whose member has a default:
+			// requests never carry it
+			kw := b.pick([]string{"allOf", "anyOf", "oneOf"}, "formcomposedkw")
+			s[kw] = []any{M{"type": "object", "properties": M{"f6": M{"type": "object", "properties": M{"n": M{"type": "integer", "default": 3.0}, "m": M{"type": "string"}}}}}}
+		}
 		if b.chance(3, "formreq") {
 			s["required"] = []any{"f1"}
 		}
